@@ -13,15 +13,15 @@ import (
 
 // SQLStmt is a classified SQL statement template.
 type SQLStmt struct {
-	Raw     string
-	Verb    string   // SELECT INSERT UPDATE DELETE CREATE-TABLE CREATE-INDEX ALTER
-	Table   string   // lower case
-	Cols    []string // SELECT list ("*" possible), INSERT column list, UPDATE SET columns, CREATE TABLE columns
-	Values  []string // INSERT VALUES items
-	Upsert  [][2]string // ON CONFLICT DO UPDATE SET col = expr
-	Where   []string // columns constrained in WHERE
+	Raw      string
+	Verb     string      // SELECT INSERT UPDATE DELETE CREATE-TABLE CREATE-INDEX ALTER
+	Table    string      // lower case
+	Cols     []string    // SELECT list ("*" possible), INSERT column list, UPDATE SET columns, CREATE TABLE columns
+	Values   []string    // INSERT VALUES items
+	Upsert   [][2]string // ON CONFLICT DO UPDATE SET col = expr
+	Where    []string    // columns constrained in WHERE
 	WhereRaw string
-	Params  int // number of ? placeholders
+	Params   int // number of ? placeholders
 }
 
 // SQLSite is a call that executes or prepares SQL.
@@ -73,7 +73,7 @@ var sqlMethods = map[string][2]string{
 	"database/sql.(*Tx).Exec": {"tx", "Exec"}, "database/sql.(*Tx).Query": {"tx", "Query"},
 	"database/sql.(*Tx).QueryRow": {"tx", "QueryRow"}, "database/sql.(*Tx).Prepare": {"tx", "Prepare"},
 	"database/sql.(*Stmt).Exec": {"stmt", "Exec"}, "database/sql.(*Stmt).Query": {"stmt", "Query"},
-	"database/sql.(*Stmt).QueryRow": {"stmt", "QueryRow"},
+	"database/sql.(*Stmt).QueryRow":  {"stmt", "QueryRow"},
 	"database/sql.(*DB).ExecContext": {"db", "Exec"}, "database/sql.(*Tx).ExecContext": {"tx", "Exec"},
 	"database/sql.(*DB).QueryContext": {"db", "Query"}, "database/sql.(*Tx).QueryContext": {"tx", "Query"},
 }
@@ -81,8 +81,8 @@ var sqlMethods = map[string][2]string{
 // SQLModel is the set of SQL sites of a package.
 type SQLModel struct {
 	Sites    []*SQLSite
-	Wrappers map[*Func]int // wrapper function -> index of its query parameter
-	TxParam  map[*Func]int // wrapper function -> index of its *sql.Tx parameter (-1 none)
+	Wrappers map[*Func]int       // wrapper function -> index of its query parameter
+	TxParam  map[*Func]int       // wrapper function -> index of its *sql.Tx parameter (-1 none)
 	Tables   map[string][]string // CREATE TABLE column order
 	Unparsed []string
 }
@@ -266,6 +266,28 @@ func sqlTemplates(f *Func, e ast.Expr, depth int) []string {
 				return []string{out}
 			}
 		}
+		// a module helper whose body is a single `return <string expr>`: expand it
+		// with the call's arguments bound to its parameters
+		if cf := f.CalleeFunc(x); cf != nil && cf.Body != nil && len(cf.Body.List) == 1 && depth < 3 {
+			if ret, ok := cf.Body.List[0].(*ast.ReturnStmt); ok && len(ret.Results) == 1 {
+				params := cf.Params()
+				if len(params) == len(x.Args) {
+					bind := map[types.Object]string{}
+					okAll := true
+					for i, a := range x.Args {
+						ts := sqlTemplates(f, a, depth+1)
+						if len(ts) != 1 {
+							okAll = false
+							break
+						}
+						bind[params[i]] = ts[0]
+					}
+					if okAll {
+						return sqlTemplatesBound(cf, ret.Results[0], depth+1, bind)
+					}
+				}
+			}
+		}
 		return []string{"§"}
 	case *ast.Ident:
 		obj := ObjOf(f.Info(), x)
@@ -307,6 +329,47 @@ func sqlTemplates(f *Func, e ast.Expr, depth int) []string {
 		return out
 	}
 	return []string{"§"}
+}
+
+// sqlTemplatesBound evaluates a string expression of a helper with its
+// parameters bound to templates.
+func sqlTemplatesBound(f *Func, e ast.Expr, depth int, bind map[types.Object]string) []string {
+	e = ast.Unparen(e)
+	if s, ok := ConstString(f.Info(), e); ok {
+		return []string{s}
+	}
+	switch x := e.(type) {
+	case *ast.Ident:
+		if t, ok := bind[ObjOf(f.Info(), x)]; ok {
+			return []string{t}
+		}
+	case *ast.BinaryExpr:
+		if x.Op == token.ADD {
+			var out []string
+			for _, a := range sqlTemplatesBound(f, x.X, depth+1, bind) {
+				for _, b := range sqlTemplatesBound(f, x.Y, depth+1, bind) {
+					out = append(out, a+b)
+				}
+			}
+			return out
+		}
+	case *ast.CallExpr:
+		if CallIs(f.Info(), x, "fmt.Sprintf") && len(x.Args) > 0 {
+			if format, ok := ConstString(f.Info(), x.Args[0]); ok {
+				i := 0
+				return []string{fmtVerb.ReplaceAllStringFunc(format, func(v string) string {
+					i++
+					if i < len(x.Args) {
+						if ts := sqlTemplatesBound(f, x.Args[i], depth+1, bind); len(ts) == 1 && !strings.Contains(ts[0], "§") {
+							return ts[0]
+						}
+					}
+					return "§"
+				})}
+			}
+		}
+	}
+	return sqlTemplates(f, e, depth)
 }
 
 var fmtVerb = regexp.MustCompile(`'?%[-+# 0]*[0-9]*(\.[0-9]+)?[a-zA-Z]'?`)
@@ -455,10 +518,16 @@ func ParseSQL(raw string) (SQLStmt, bool) {
 			for ; i < len(toks) && up(i) != "SET"; i++ {
 			}
 			i++
-			for i+2 < len(toks)+1 && i < len(toks) {
+			for i < len(toks) {
 				if i+2 < len(toks) && toks[i+1] == "=" {
-					st.Upsert = append(st.Upsert, [2]string{strings.ToLower(toks[i]), toks[i+2]})
-					i += 3
+					col := strings.ToLower(toks[i])
+					val := ""
+					i += 2
+					for i < len(toks) && toks[i] != "," && strings.ToUpper(toks[i]) != "WHERE" {
+						val += toks[i]
+						i++
+					}
+					st.Upsert = append(st.Upsert, [2]string{col, val})
 					if i < len(toks) && toks[i] == "," {
 						i++
 						continue
